@@ -5,4 +5,5 @@ import PG.Props.C18
 #print axioms PG.C18_version_variant
 #print axioms PG.C18_namespace
 #print axioms PG.C18_empty
+#print axioms PG.C18_sha1_vectors
 #print axioms PG.C18_source
